@@ -547,11 +547,91 @@ def r7_truncation_siblings(repo=None):
     return r
 
 
+def r8_remembered_subdir_is_current(repo=None, rid="C04.R8"):
+    """The path of a new file is built from the remembered field sub_directory (C02.R1), not from the `subdir` just computed
+    for the sample, so the field must equal `subdir` whenever a file is created: (a) in digital_rf_create_hdf5_file every path
+    to H5Fcreate either calls the directory helper with `subdir` or has seen strcmp(sub_directory, subdir) == 0; (b) every
+    success return of the helper has stored its `subdir` parameter into the field."""
+    r = Rule(rid, "the remembered sub-directory is the one computed for this file whenever a file is created (must-pass)")
+    tu = cfront.lib(repo)
+    H = "digital_rf_create_new_directory"
+    cf = tu.fn("digital_rf_create_hdf5_file")
+    g = _cfg.build_c(cf)
+    creates = [n for n in g.nodes if n.ast is not None and n.ast.calls(("H5Fcreate",))]
+    if not creates:
+        raise AnalysisError("%s: H5Fcreate not found" % cf.name)
+    params = [p_.name for p_ in cf.children if p_.kind == "ParmVarDecl"]
+    field = OBJ + "->sub_directory"
+    cand = [p_ for p_ in params if p_ != OBJ]
+    helper_calls = []
+    sub_param = None
+    for n in g.nodes:
+        if n.ast is None:
+            continue
+        for c in n.ast.calls((H,)):
+            if len(c.args) >= 2 and c.args[1].path() in cand:
+                helper_calls.append(n)
+                sub_param = c.args[1].path()
+    if not helper_calls or sub_param is None:
+        raise AnalysisError("%s: call of %s(obj, <sub-directory parameter>) not found" % (cf.name, H))
+    eq_conds = []
+    for n in g.nodes:
+        if n.kind == "cond" and n.ast is not None:
+            e = n.ast.strip(casts=True)
+            neg = False
+            while e.kind == "UnaryOperator" and e.opcode == "!":
+                neg = not neg
+                e = e.children[0].strip(casts=True)
+            if e.kind == "CallExpr" and e.callee == "strcmp" and {e.args[0].path(), e.args[1].path()} == {field, sub_param}:
+                eq_conds.append((n.id, "T" if neg else "F"))      # label of the edge on which the two names are equal
+            elif e.kind == "BinaryOperator" and e.opcode in ("==", "!=") and e.children[1].intval() == 0:
+                c = e.children[0].strip(casts=True)
+                if c.kind == "CallExpr" and c.callee == "strcmp" and {c.args[0].path(), c.args[1].path()} == {field, sub_param}:
+                    eq_conds.append((n.id, "T" if (e.opcode == "==") != neg else "F"))
+    eq = dict(eq_conds)
+
+    def filt(a, b, lab):
+        return not (a in eq and lab == eq[a])
+    reach = g.reach([g.entry.id], avoid=[n.id for n in helper_calls], edge_filter=filt)
+    bad = [c for c in creates if c.id in reach]
+    if bad:
+        r.violation(LIB, cf.name, "H5Fcreate reachable without %s(.., %s) and without strcmp(sub_directory, %s) == 0" % (H, sub_param, sub_param),
+                    "the file is created in (and its existence test done against) the sub-directory remembered from an earlier "
+                    "file, not the one computed for this sample: after a sub-directory boundary files land in the wrong directory",
+                    line=bad[0].line)
+    else:
+        r.ok("%s:%s %s" % (LIB, creates[0].line, cf.name), "every path to H5Fcreate has set or compared the remembered sub-directory "
+             "with `%s`" % sub_param)
+    hf = tu.fn(H)
+    hg = _cfg.build_c(hf)
+    hparams = [p_.name for p_ in hf.children if p_.kind == "ParmVarDecl"]
+    if len(hparams) < 2:
+        raise AnalysisError("%s: parameters not recognised" % H)
+    sp = hparams[1]
+    stores = [n for n in hg.nodes if n.ast is not None and any(c.args and c.args[0].path() == field and len(c.args) > 1
+              and c.args[1].path() == sp for c in n.ast.calls(("strcpy", "strncpy", "snprintf")))]
+    stores += [n for n in hg.nodes if n.kind == "stmt" and n.ast is not None and n.ast.kind == "BinaryOperator" and n.ast.opcode == "="
+               and n.ast.children[0].path() == field and n.ast.children[1].calls(("strdup",))]
+    if not stores:
+        raise AnalysisError("%s: store of `%s` into sub_directory not found" % (H, sp))
+    okret = [n for n in hg.nodes if n.kind == "return" and n.ast.children and n.ast.children[0].intval() == 0]
+    skip = [n for n in okret if n.id in hg.reach([hg.entry.id], avoid=[x.id for x in stores])]
+    if skip:
+        r.violation(LIB, H, "return(0) at line %s without storing `%s` into sub_directory" % (skip[0].line, sp),
+                    "the helper reports success although the remembered sub-directory still names the previous one; the caller builds "
+                    "the file path from it", line=skip[0].line)
+    else:
+        r.ok("%s:%s %s" % (LIB, stores[0].line, H), "every success return has stored `%s` into sub_directory" % sp)
+    r.guard(2)
+    return r
+
+
 def rules(repo=None):
     from . import c01
     return [lambda: r1_integer_only(repo), lambda: r2_pure_function(repo), lambda: r3_floor_ceil_pairing(repo),
             lambda: r4_new_file_on_name_change(repo), lambda: r5_cadence_rule(repo),
-            lambda: c01.r2_name_format_agreement(repo, rid="C04.R6"), lambda: r7_truncation_siblings(repo)]
+            lambda: c01.r2_name_format_agreement(repo, rid="C04.R6"), lambda: r7_truncation_siblings(repo),
+            lambda: r8_remembered_subdir_is_current(repo)]
 
 
 EXPLANATION = (
@@ -563,7 +643,8 @@ EXPLANATION = (
     "equality, and a changed name reaches digital_rf_create_hdf5_file before any H5Dwrite. R5: the three cadence tests "
     "reject in both constructors. R6: writer/reader/listing name formats agree (regular-language inclusion). R7: the two places "
     "that cut a block at a file boundary (inside and after the block loop of digital_rf_create_rf_data_index) use the same linear "
-    "form (contradiction rule). Does NOT decide that the floor/ceil arithmetic is right.")
+    "form (contradiction rule). R8: whenever a file is created the remembered sub_directory field (from which the path is built) has been "
+    "set to or compared equal with the sub-directory computed for this sample. Does NOT decide that the floor/ceil arithmetic is right.")
 TECHNIQUE = ('clang JSON AST; typed backward slice (integer-only); purity/effects of naming functions and their helpers; def-use pairing of floor/ceil helpers; CFG must-pass; linear-form sibling comparison')
 ASSUMPTIONS = ["clang's expression types are the types the compiler uses", "gmtime is a pure function of its argument"]
 FILES = [C_LIB, "python/digital_rf/digital_rf_hdf5.py", "python/digital_rf/list_drf.py"]
